@@ -32,7 +32,7 @@ from pathlib import Path
 from harness.translate import HEADER, write_if_changed
 
 NAME = "T12_pydo_serialization"
-PROPS = ["C11"]
+PROPS = ["C11", "C09"]  # Gen.BaseRead (T20) imports Gen.Serialization
 SRC = "packages/geff/src/geff/core_io/_serialization.py"
 
 
